@@ -450,16 +450,63 @@ def check_calendar(prog, rep):
                     'year %d, %02d-%02d' % (len(bad_rej), y, m, d), func=f.id, count=len(bad_rej))
     else:
         rep.ok('R15.4', 'calendar|every valid date accepted', sample={'cells': n_cells})
-    # (3) the text must end right after 'Z'
+    # (3) the text must end right after 'Z': the guard that throws is read as a boolean function of three atoms - the cursor is at the end (A),
+    # the character under it is 'Z' (B), the cursor + 1 is the end (C) - and must throw exactly when not (not A and B and C); named flags,
+    # De Morgan forms and operand order do not matter
+    from bsv.expr import BoolExpr
     tail = False
+    seen_guard = False
+
+    def classify(e):
+        if e['k'] != 'BinaryOperator' or e.get('op') not in ('==', '!='):
+            return None
+        l, r = strip(e['c'][0]), strip(e['c'][1])
+        if l is None or r is None:
+            return None
+        pos_ = e['op'] == '=='
+
+        def is_end(x):
+            return x['k'] == 'DeclRefExpr' and (x.get('n') or '').lower().startswith('end') or (x['k'] == 'DeclRefExpr' and 'end' in (x.get('n') or '').lower())
+
+        def is_cursor(x):
+            return x['k'] == 'DeclRefExpr' and not is_end(x)
+
+        def is_next(x):
+            return x['k'] == 'BinaryOperator' and x.get('op') == '+' and any((strip(c) or {}).get('cv') == 1 for c in x['c']) and any(is_cursor(strip(c) or {'k': ''}) for c in x['c'])
+
+        def is_deref(x):
+            return (x['k'] == 'UnaryOperator' and x.get('op') == '*' and is_cursor(strip(x['c'][0]) or {'k': ''})) or \
+                   (x['k'] == 'ArraySubscriptExpr' and (strip(x['c'][1]) or {}).get('cv') == 0)
+        for x, y in ((l, r), (r, l)):
+            if is_cursor(x) and is_end(y):
+                return ('A', pos_)
+            if is_deref(x) and y.get('cv') == 90:
+                return ('B', pos_)
+            if is_next(x) and is_end(y):
+                return ('C', pos_)
+        return None
     for n in f.walk():
-        if n['k'] == 'IfStmt':
-            c0 = child(n, 'cond')
-            lits = [x.get('cv') for x in f.walk(c0) if x['k'] == 'CharacterLiteral']
-            th = [x for x in f.walk(child(n, 'then')) if x['k'] == 'CXXThrowExpr']
-            if 90 in lits and th:
-                ops = [(x.get('op'), [y.get('n') for y in f.walk(x) if y['k'] == 'DeclRefExpr']) for x in f.walk(c0) if x['k'] == 'BinaryOperator' and x.get('op') in ('!=', '==')]
-                tail = any(op == '!=' and 'end' in names and any(y['k'] == 'BinaryOperator' and y.get('op') == '+' for y in f.walk(c0)) for op, names in ops)
+        if n['k'] != 'IfStmt':
+            continue
+        c0 = child(n, 'cond')
+        th = [x for x in f.walk(child(n, 'then')) if x['k'] == 'CXXThrowExpr'] if child(n, 'then') is not None else []
+        if not th:
+            continue
+        be = BoolExpr(f, c0, classify)
+        if 'B' not in be.atoms or be.unknown:
+            continue
+        seen_guard = True
+        ok = set(be.atoms) == {'A', 'B', 'C'}
+        if ok:
+            for env, v in be.table():
+                if env['A'] and (env['C']):
+                    continue        # cursor at the end and cursor + 1 at the end cannot both hold
+                want = not ((not env['A']) and env['B'] and env['C'])
+                if env['A']:
+                    want = True
+                if v != want:
+                    ok = False
+        tail = tail or ok
     if tail:
         rep.ok('R15.4', "text ends right after 'Z'")
     else:
@@ -849,6 +896,8 @@ def check_chrono_casts(prog, rep, rule):
     for f in sorted(prog.funcs.values(), key=lambda g: g.id):
         if f.body is None or not f.relfile.endswith('conversion_detail/convert_chrono.h'):
             continue
+        if 'signed char' in f.id or 'short' in f.id:
+            narrow_inst = True      # a parser instantiated for an 8- / 16-bit representation exists in the facts
         frac_vars = set()
         for n in f.walk():
             if n['k'] == 'CallExpr' and (f.callee(n) or {}).get('n') == 'ParseSecondFractions':
@@ -872,8 +921,6 @@ def check_chrono_casts(prog, rep, rule):
             ti, si = INT_TYPES.get(trep), INT_TYPES.get(srep)
             if ti is None or si is None:
                 continue
-            if 'signed char' in f.id or 'short' in f.id:
-                narrow_inst = True
             key = (f.relfile, n['l'])
             st = seen.setdefault(key, {'f': f, 'n': n, 'bad': None, 'count': 0})
             st['count'] += 1
@@ -881,8 +928,17 @@ def check_chrono_casts(prog, rep, rule):
                 # a source known to be a fraction of one second (the value ParseSecondFractions produced, R15.7) converts to at most
                 # one second's worth of target units: no wrap when the target representation holds that many
                 arg = n['c'][1]
+                from bsv.expr import named_inits
+                inits = named_inits(f)
+                nodes = list(f.walk(arg))
+                for _ in range(3):      # named temporaries on the way (const nanoseconds signedFractions = isNegative ? -ns : ns;)
+                    extra = [y for x in nodes if x['k'] == 'DeclRefExpr' and x.get('d') in inits and x.get('d') not in frac_vars
+                             for y in f.walk(inits[x['d']])]
+                    if not extra:
+                        break
+                    nodes = nodes + [y for y in extra if all(y is not z for z in nodes)]
                 frac = any((x['k'] == 'DeclRefExpr' and x.get('d') in frac_vars) or (x['k'] == 'MemberExpr' and x.get('m') == 'SecFractions')
-                           for x in f.walk(arg))
+                           for x in nodes)
                 mr = re.search(r'duration<[^,>]+,\s*std::ratio<(\d+),\s*(\d+)>', ta)
                 num, den = (int(mr.group(1)), int(mr.group(2))) if mr else (1, 1)
                 per_second = -(-den // num) if den > num else 1
